@@ -607,3 +607,23 @@ runner_harness!(runner_real_callback_cleanup_before_deferred, 4, {
     kani::cover!(true, "end of harness reached");
     std::mem::forget(world);
 });
+
+/// S4c (C12/C09): the replay ORDER alone, on the lightest shape that can show a reordering: three commands postponed for
+/// the finishing system itself (concrete ownership), distinct setup/cleanup, at the root.
+runner_top_harness!(runner_step_replay_order_three, 5, {
+    let mut world = mk_world();
+    world.m_apply_table::<(SystemCommand,)>();
+    world.m_drop_table::<bevy::model::cell::LeakAll>();
+    let a = logger(&mut world, 1);
+    set_counter(&mut world, 0);
+    buffer_push(&mut world, a, 2);
+    buffer_push(&mut world, a, 3);
+    buffer_push(&mut world, a, 4);
+    top_runner(&mut world, a, setup_k(1, a), cleanup_k(1));
+    assert!(nested_n() == 3, "C02: each postponed command is replayed once");
+    let r = unsafe { NESTED };
+    assert!(r[0].2 == 2 && r[0].3 == 2 && r[1].2 == 3 && r[1].3 == 3 && r[2].2 == 4 && r[2].3 == 4, "C12/C09: replayed in the order they were postponed, each with its own setup and cleanup");
+    assert!(buffered_len(&world) == 0 && counter(&world) == 0 && has_callback(&world, a), "C11: quiescent");
+    kani::cover!(true, "end of harness reached");
+    std::mem::forget(world);
+});
